@@ -67,6 +67,9 @@ def cclose(got_re, got_im, want, scale, rel):
     return abs(mpmath.mpf(got_re) - want.real) <= tol and abs(mpmath.mpf(got_im) - want.imag) <= tol
 
 
+_HELD = {}
+
+
 def replay(chk, e, n, key="lattice"):
     pt = e["pt"]
     B, nv, nh, na = pt["B"], pt["nv"], pt["nh"], pt["na"]
@@ -82,6 +85,12 @@ def replay(chk, e, n, key="lattice"):
         return
     Z = sum(diag)
     full = st.rho(sp, sp)                                  # (2, N, N)
+    # a result belongs to the caller: the matrix obtained for the PREVIOUS parameter setting of the same shape, still held,
+    # keeps its values when another one is computed (two models compared side by side, a matrix gathered element by element)
+    held = _HELD.get(("full", N))
+    if held is not None and not torch.equal(held[0], held[1]):
+        chk.violation(key + ":rho[full]:earlier-result-overwritten", dict(det, note="the tensor returned for the previous point changed"))
+    _HELD[("full", N)] = (full, full.clone())
     ok = True
     for i in range(N):
         for j in range(N):
@@ -103,6 +112,11 @@ def replay(chk, e, n, key="lattice"):
     idx_i = [i for i in range(N) for _ in range(N)]
     idx_j = [j for _ in range(N) for j in range(N)]
     pair = st.rho(sp[idx_i], sp[idx_j], expand=False)
+    for form, cur in (("pair", pair),):
+        held = _HELD.get((form, N))
+        if held is not None and not torch.equal(held[0], held[1]):
+            chk.violation(key + ":rho[expand=False]:earlier-result-overwritten", dict(det))
+        _HELD[(form, N)] = (cur, cur.clone())
     for t, (i, j) in enumerate(zip(idx_i, idx_j)):
         chk.evaluations += 1
         scale = mpmath.sqrt(diag[i] * diag[j])
@@ -113,6 +127,10 @@ def replay(chk, e, n, key="lattice"):
     # single element (1-D call form)
     i, j = n % N, (n // N) % N
     one = st.rho(sp[i], sp[j])
+    held = _HELD.get(("one", 0))
+    if held is not None and not torch.equal(held[0], held[1]):
+        chk.violation(key + ":rho[1-D]:earlier-result-overwritten", dict(det))
+    _HELD[("one", 0)] = (one, one.clone())
     chk.evaluations += 1
     if one.numel() != 2 or not cclose(one.reshape(-1)[0].item(), one.reshape(-1)[1].item(), rho[i][j],
                                       mpmath.sqrt(diag[i] * diag[j]), 1e-7 if cancels(e["G"][i][j]) else rel):
